@@ -50,3 +50,34 @@ Theorem C08_no_wrap_update : forall s t, length (sls s) = length (sls t) ->
 Proof. exact upd_sub_exact. Qed.
 Example C08_width_matters : wrap W8 (wrap W8 200 + 100) <> 300.
 Proof. exact width_matters. Qed.
+
+(* ---- the node operations are the ones in the source (Proofs/GenTieTree.v) ----
+   Gen/GTree.v: the bodies of _BFNode.append_subcluster / update_split_subclusters / insert_bf_subcluster and
+   of _split_node extracted as step lists on every run; Model/TreePlan.v interprets them on the tree model
+   (entry list and cache rows updated together; the recursive call a parameter; the leaf-chain splice as a
+   block backed by a pointer-level lemma); running the EXTRACTED bodies is Tree.insert and Tree.split_node.
+   [node_ok]: cache length = number of entries, an inner node non-empty and not over-full. *)
+From BB Require Import Model.TreePlan Gen.GTree Proofs.GenTieTree.
+Theorem C08_source_tie_insert : forall fexp nf c thr s nd ax,
+  node_ok nd ->
+  run_insert fexp nf c thr GTree.add_to_body GTree.replace_body GTree.update_body GTree.merge_body
+             GTree.append_body GTree.update_split_body (insert fexp nf c thr) s GTree.insert_body nd ax
+  = Some (insert fexp nf c thr nd s ax).
+Proof. exact insert_gen. Qed.
+Theorem C08_source_tie_split_leaf : forall nf id bf es cache ax,
+  match run_split_node (fun x : sub => x) GTree.update_body GTree.add_to_body GTree.append_body nf
+          (Some id) bf (nid ax) GTree.split_node_body es cache (chain ax) with
+  | Some ((t1, (b1, (a1, c1))), (t2, (b2, (a2, c2))), ch) =>
+      Some ((t1, Leaf (nid ax) b1 a1 c1), (t2, Leaf id b2 a2 c2), mkAux (S (nid ax)) ch)
+  | None => None
+  end = Some (split_node nf (Leaf id bf es cache) ax).
+Proof. exact split_node_leaf_gen. Qed.
+Theorem C08_source_tie_split_inner : forall nf bf es cache ax,
+  match run_split_node (fun x : sub * node => fst x) GTree.update_body GTree.add_to_body
+          GTree.append_body nf None bf (nid ax) GTree.split_node_body (ents_list es) cache (chain ax) with
+  | Some ((t1, (b1, (a1, c1))), (t2, (b2, (a2, c2))), ch) =>
+      Some ((t1, Inner b1 (ents_of_list a1) c1), (t2, Inner b2 (ents_of_list a2) c2),
+            mkAux (nid ax) ch)
+  | None => None
+  end = Some (split_node nf (Inner bf es cache) ax).
+Proof. exact split_node_inner_gen. Qed.
